@@ -5,5 +5,5 @@ CONSTANTS
   Elem <- ElemDef
   LongLens = {17}
   PerLen = 1
-INVARIANTS MirrorOK RankLoopOK PartitionOK EmitOrder
+INVARIANTS MirrorOK RankLoopOK PartitionOK QuantileHomogeneous EmitOrder
 CHECK_DEADLOCK FALSE
